@@ -162,7 +162,7 @@ inductive Outcome
   | errAppTooHigh      -- ErrAppBlockHeightTooHigh
   | errAppTooLow       -- ErrAppBlockHeightTooLow (application below the block store's base)
   | panicStateAhead    -- "StateBlockHeight > StoreBlockHeight"
-  | panicStoreAhead    -- "StoreBlockHeight > StateBlockHeight + 1"
+  | panicStoreAhead    -- "StoreBlockHeight > StateBlockHeight + 1" (as repaired: > the height after the state, InitialHeight for an empty state)
   | errNoResp          -- LoadLastABCIResponse fails
   | errInvalidBlock    -- ApplyBlock: validateBlock fails
   | panicHashBlock     -- assertAppHashEqualsOneFromBlock
@@ -229,14 +229,14 @@ def handshake (c : Chain) (d0 : Disk) : HsResult :=
   else if 0 < appH ∧ appH < c.ih - 1 then ⟨pre, .appTooLow, .errAppTooLow, 0⟩
   else if storeH < appH then ⟨pre, .appTooHigh, .errAppTooHigh, 0⟩
   else if storeH < stateH then ⟨pre, .stateAhead, .panicStateAhead, 0⟩
-  else if storeH > stateH + 1 then ⟨pre, .storeAhead, .panicStoreAhead, 0⟩
+  else if storeH > nxt c stateH then ⟨pre, .storeAhead, .panicStoreAhead, 0⟩
   else if storeH = stateH then
     if appH < storeH then replayBlocks c d0 pre appH storeH false .replayNoMutate
     else if appH = storeH then
       if appHash = d0.stateHash then ⟨pre, .synced, .ok, 0⟩
       else ⟨pre, .synced, .panicHashState, 0⟩
     else ⟨pre, .uncovered, .panicUncovered, 0⟩
-  else if storeH = stateH + 1 then
+  else if storeH = nxt c stateH then
     if appH < stateH then replayBlocks c d0 pre appH storeH true .replayMutate
     else if appH = stateH then
       if validBlock c (applyEffs d0 pre) storeH then
